@@ -14,13 +14,14 @@ SPKI = drv("spki", ["props/spki.cpp"])
 IPCONV = drv("ipconv", ["props/ipconv.cpp"])
 ENUMNAMES = drv("enumnames", ["props/enumnames.cpp"])
 BGPSEC = drv("bgpsec", ["props/bgpsec.cpp"], deps=["model/rfc8205.hpp"])
+MGR = drv("mgr", ["props/mgr.cpp"], ldflags="-lrapidcheck -Wl,--wrap=rtr_start,--wrap=rtr_stop")
 WRAPS = " -Wl,--wrap=lrtr_get_monotonic_time,--wrap=sleep,--wrap=lrtr_dbg"
 CONV = drv("conv", ["props/conv.cpp", "engine/convsim.cpp"], ldflags="-lrapidcheck" + WRAPS,
            deps=["engine/convsim.hpp", "engine/convsim_model.inc", "engine/convsim_mock.inc", "engine/convsim_run.inc", "engine/judge.hpp",
                  "engine/cache.hpp", "engine/script.hpp", "engine/wire.hpp"])
 
 ENGINES = [
-    {"name": "rapidcheck-drivers", "path": "props/", "serves_properties": ["C01", "C02", "C09", "C10", "C11", "C12", "C19", "C20"],
+    {"name": "rapidcheck-drivers", "path": "props/", "serves_properties": ["C01", "C02", "C09", "C10", "C11", "C12", "C15", "C19", "C20"],
      "kind_free_text": "C++17 rapidcheck drivers linked against rtrlib built from the working tree (ASan+UBSan subset, asserts on); model-based / stateful"},
 ]
 
@@ -261,5 +262,23 @@ CHECKS = {
         "stages": [{"driver": BGPSEC,
                     "quick": {"procs": 8, "rc": (1500, 100)},
                     "thorough": {"procs": 16, "rc": (12000, 100), "timeout": 7200}}],
+    },
+    "C15": {
+        "level": "exploration",
+        "rule": "rapidcheck generates configurations of 0..3 groups x 0..2 sockets with preferences from {1,2,3,5,9,200} (duplicates and empty groups occur and must be rejected by rtr_mgr_init) and histories of "
+                "socket state changes drawn from the socket state machine's successor relation (CONNECTING/RESET/SYNC/ESTABLISHED with last_update set/the error states/FAST_RECONNECT, expiry clearing last_update), "
+                "rtr_mgr_add_group (used and unused preferences), rtr_mgr_remove_group (existing, unknown, last), rtr_mgr_stop. rtr_start/rtr_stop are link-time mocks that record the call and reproduce the real ones' visible effects; "
+                "events are injected with the real rtr_change_socket_state so the real rtr_mgr_cb runs. Invariants after every operation: ascending order of for_each_group / get_first_group; a group becomes ESTABLISHED only if every socket has "
+                "last_update != 0; then every less preferred group is CLOSED, was reported CLOSED and has no running socket; stops caused by a socket of group g only hit groups less preferred than g; when a group enters ERROR with no group ESTABLISHED "
+                "the most preferred closed group and only that one is started. non-trivial = history in which a failover closed a less preferred active group or an ERROR triggered a start; distinct by hash of the case.",
+        "assumptions": ["the mocks of rtr_start/rtr_stop reproduce state, thread_id, last_update and the SHUTDOWN callback of the real functions (rtr.c)",
+                        "socket events follow the successor relation of rtr_fsm_start; sockets without a running thread produce no events"],
+        "floor": {"quick": 300, "thorough": 3000},
+        "technique": "stateful property testing (rapidcheck) with invariants over the status-callback / start / stop stream",
+        "level_text": "Sampled exploration of configurations and event histories with the property's sentences as invariants evaluated after every event.",
+        "level_note": "Single-threaded; the manager's own locking is not exercised here.",
+        "stages": [{"driver": MGR,
+                    "quick": {"procs": 8, "rc": (3000, 60)},
+                    "thorough": {"procs": 16, "rc": (40000, 100), "timeout": 7200}}],
     },
 }
